@@ -4,7 +4,7 @@ from ..rules import glyph, image
 
 def run(ck):
     P = facts.load()
-    ck.not_decided = ('not decided: map semantics under arbitrary histories, LRU order, equality of glyph drawing with per-glyph compositing.')
+    ck.not_decided = ('not decided: map semantics under arbitrary histories (a second insert under a live key yields two entries), LRU order, equality of glyph drawing with per-glyph compositing.')
     glyph.r1_capacity(ck, P)
     glyph.r2_counters_pair(ck, P)
     glyph.r3_index_bounds(ck, P)
